@@ -49,9 +49,9 @@ def cases(ctx):
         for sgn in (1, -1):
             for k in (-1, 1):
                 pts.append((sgn * (t + k * 1.5 / 131072.0), rng.choice(lons)))
-    for _ in range(ctx.n(1200, 40000)):
+    for _ in range(ctx.n(1200, 8000)):
         pts.append((rng.uniform(-89, 89), rng.uniform(-180, 180)))
-    for _ in range(ctx.n(300, 10000)):
+    for _ in range(ctx.n(300, 2500)):
         pts.append((rng.uniform(-0.6, 0.6), rng.uniform(-180, 180)))
         pts.append((rng.uniform(-89, 89), rng.choice([0, 90, -90, 180]) + rng.uniform(-0.6, 0.6)))
     for (la, lo) in pts:
